@@ -394,6 +394,11 @@ func Replay(o Options, body func(*Run), choices []int) (*Run, []string) {
 // RunOnce runs body a single time under the default schedule (mode B/C building block).
 // It returns the violations recorded by the body.
 func RunOnce(o Options, body func(*Run)) (*Run, []string) {
+	if o.Horizon == 0 {
+		// a single sequential run (typically the carrier of a Cases enumeration): the
+		// horizon guards schedule searches against livelock and has no meaning here
+		o.Horizon = 1 << 30
+	}
 	o.defaults()
 	r, x := oneExec(&o, body, nil)
 	if x.diverged != "" {
